@@ -55,7 +55,7 @@ CHECKS = {
               "dump of EVERY value (any nesting of dataclasses, containers, named tuples, scalars, any Meta / travelling config, ISO "
               "or TIMESTAMP) that does not raise contains no node the standard encoder refuses (induction on the size of the value "
               "over all five mutually recursive dump functions); dump model tied to the code by type-exact correspondence incl. "
-              "aliasing / side-effect monitors. Keys of user dictionaries are not restricted by the theorem (dict[tuple, .])"),
+              "aliasing / side-effect monitors. Keys of user dictionaries are not restricted by the theorem (dict[tuple, .]). C03_generated_code_json_safe: the same for the pairs obtained by running the text-level model of the dump-function generator (tied byte for byte to the generated source) and applying asdict to its emissions"),
         technique='Lean 4 proof over generated tables + hand model + differential correspondence', ref='4 C03'),
     'C04': dict(
         text=("Lean theorems for all three engines: default — truthy table = documented set (regenerated), coercion laws, int-of-float "
@@ -90,7 +90,7 @@ CHECKS = {
         text=('Lean theorems for both engines: the document-level deletion statement for the default engine (C09_key_deletion: any class without catch-all, any field loaders and Meta, any document that loads, any set of deleted keys - the sub-document loads exactly when no constructor field without default lost all the keys that resolve to it, else MissingFields names the class and exactly those fields; on success every field holds the converted value of the last remaining key, else its default / fresh factory product - induction over the key loop, which treats every key on its own); exact MissingFields list (class + exactly the absent required constructor fields, in declaration order for v1), init=False never demanded, defaulted never missing, on success every field holds the last supplied value or its default, kwargs contain constructor fields only (v1), a nested failure passes unchanged; models tied to the code by exhaustive key-subset correspondence (power sets) on default and v1 classes, on families of classes related by inheritance loaded in one history (derived classes adding required / defaulted fields; the result is an instance of the class asked for) and with debug mode switched on for the main class'),
         technique='Lean 4 proof over hand models of both engines + exhaustive subset correspondence', ref='4 C09'),
     'C10': dict(
-        text=('Lean theorems for both engines: RAISE never accepts a document containing an unknown key and names exactly the unknown keys and the class; catch-all captures exactly the unknown pairs in order minus the whitelisted tag key; unknown keys never change mapped fields; v1: the len(o) != i test holds iff the document has an unknown pair (counting proof under V1WellKeyed), IGNORE drops, witnesses of the recorded findings; models tied to the code over policy x depth x repetition x tag presence x history (load-first / dump-first / second root), dump of captured keys compared with the dump model; write-back clause: on the dump model a successful dump contains every item of the CatchAll mapping, key as given, for every Meta (skip_if / skip_defaults_if / skip_defaults / dump key transform) and skip_defaults argument (C10_writeback_whatever_dump_settings, C10_writeback_keys_as_given), tied to the code by a stream over CatchAll classes x those settings (own or cascading) x SkipIf on other fields x unknown values the settings look at (None / 0 / False / empty / equal to a default) x every way of dumping, both engines'),
+        text=('Lean theorems for both engines: RAISE never accepts a document containing an unknown key and names exactly the unknown keys and the class; catch-all captures exactly the unknown pairs in order minus the whitelisted tag key; unknown keys never change mapped fields; v1: the len(o) != i test holds iff the document has an unknown pair (counting proof under V1WellKeyed), IGNORE drops, witnesses of the recorded findings; models tied to the code over policy x depth x repetition x tag presence x history (load-first / dump-first / second root), dump of captured keys compared with the dump model; write-back clause: on the dump model a successful dump contains every item of the CatchAll mapping, key as given, for every Meta (skip_if / skip_defaults_if / skip_defaults / dump key transform) and skip_defaults argument (C10_writeback_whatever_dump_settings, C10_writeback_keys_as_given), tied to the code by a stream over CatchAll classes x those settings (own or cascading) x SkipIf on other fields x unknown values the settings look at (None / 0 / False / empty / equal to a default) x every way of dumping, both engines. C10_generated_code_writes_back: at the level of the generated dump function (text-level generator model + interpreter, harness/props/c11_gencode.py) the items of a CatchAll field that is not excluded, not default and not skipped as a default are re-emitted at top level whatever the other settings are'),
         technique='Lean 4 proof over hand models of both engines + differential correspondence', ref='4 C10'),
     'C11': dict(
         text=("Lean theorems: the generated skip bookkeeping omits exactly the reference selection (exclude, dump=False, skip_defaults "
@@ -102,7 +102,7 @@ CHECKS = {
         text=("Lean theorems for both engines: merge specification (own setting wins, else root's) for every modelled mergeable setting, special attributes never inherited, recursive=False hands nothing down, the travelling config passes unchanged through every container and nested instance on dump and load; v1: a class two levels down is configured with merge(own, root) and its loader contains no mention of the intermediate class's Meta; attribute sets regenerated from AbstractMeta; models tied to the code over the settings lattice x shapes x binding styles, 2- and 3-level v1 nestings with 6 link shapes, v1 nested classes with a tag / tag_key / unknown-key policy / CatchAll of their own judged against a twin class, and default-engine roots with recursive_classes (lazily resolved nested classes, self-referential roots) judged against a twin"),
         technique='Lean 4 proof over hand models + generated attribute sets + differential correspondence', ref='4 C12'),
     'C13': dict(
-        text=("Lean theorems for both engines: a dict whose tag key holds K's tag is loaded by K's loader for every position of K in the Union and any other members (dispatch on the tag alone); dump-then-load through the Union gives back the member instance for every member of the round-trip fragment on both engines (C13_roundtrip_tagged, C13_v1_roundtrip_tagged); unassigned / missing tags give ParseError; the tag key is known (never unknown, never captured), also when an init=False attribute mirrors it (v1); dump appends the tag under the configured key; models tied to the code over families, tag keys, argument rotations, container positions, load-before-any-dump streams on both engines; Unions declared in nested classes, under recursive_classes / self-referential main classes, with forward-reference members (oracle; dump first)"),
+        text=("Lean theorems for both engines: a dict whose tag key holds K's tag is loaded by K's loader for every position of K in the Union and any other members (dispatch on the tag alone); dump-then-load through the Union gives back the member instance for every member of the round-trip fragment on both engines (C13_roundtrip_tagged, C13_v1_roundtrip_tagged); unassigned / missing tags give ParseError; the tag key is known (never unknown, never captured), also when an init=False attribute mirrors it (v1); dump appends the tag under the configured key; models tied to the code over families, tag keys, argument rotations, container positions, load-before-any-dump streams on both engines; Unions declared in nested classes, under recursive_classes / self-referential main classes, with forward-reference members (oracle; dump first). C13_generated_code_writes_tag: at the level of the generated dump function (text-level generator model + interpreter) the tag entry is written last, once, under the configured tag key, for every class with a tag"),
         technique='Lean 4 proof over hand models of both engines + differential correspondence', ref='4 C13'),
     'C14': dict(
         text=('Lean theorems: every failing load of a v1 class - any JSON input, any field loaders - ends in a library error (induction over the field list + constructor step, finish step, nested classes), innermost attribution kept, inner errors pass, error lattice regenerated from errors.py; attribution at the level of documents (C14_v1_error_origin: a failing load of a dict document is either the failure of ONE constructor field loader on the value found under the key of that field, re-attributed by the handler of this class - (class, field) when the inner error names nothing yet, the inner names otherwise - or an UnknownKeysError / MissingFields of the last step naming this class; induction over the generated field loop); model tied to the code on malformed streams comparing (type, class_name, field_name / missing / unknown); oracle: isinstance JSONWizardError, str(e) returns (incl. missing AliasPath keys in nested classes), independent path-based attribution for scalar positions'),
